@@ -980,6 +980,11 @@ func (r *Reader) parseBodyElementsInOrder(data []byte) error {
 	decoder := xml.NewDecoder(strings.NewReader(string(data)))
 	var inBody bool
 	var paraIndex, tableIndex int
+	// depth is the number of open elements below <w:body>. Only direct
+	// children (depth 0) correspond to entries of Body.Paragraphs/Body.Tables;
+	// paragraphs and tables nested in table cells, text boxes or content
+	// controls must not be counted.
+	depth := 0
 
 	for {
 		token, err := decoder.Token()
@@ -990,12 +995,18 @@ func (r *Reader) parseBodyElementsInOrder(data []byte) error {
 		switch t := token.(type) {
 		case xml.StartElement:
 			// Check if we're entering the body
-			if t.Name.Local == "body" {
+			if !inBody && t.Name.Local == "body" {
 				inBody = true
+				depth = 0
 				continue
 			}
 
 			if !inBody {
+				continue
+			}
+
+			depth++
+			if depth != 1 {
 				continue
 			}
 
@@ -1019,9 +1030,15 @@ func (r *Reader) parseBodyElementsInOrder(data []byte) error {
 				}
 			}
 		case xml.EndElement:
-			if t.Name.Local == "body" {
-				inBody = false
+			if !inBody {
+				continue
 			}
+			if depth == 0 {
+				// the end tag of <w:body> itself
+				inBody = false
+				continue
+			}
+			depth--
 		}
 	}
 
